@@ -8,6 +8,8 @@ import QV.Proofs.WriterRefine
 namespace QV.Writer
 open QV QV.Wire QV.Spec QV.ServerSafety
 
+variable {P : CMode → Prop}
+
 /-- two lists related element by element -/
 inductive All2 {α β : Type} (R : α → β → Prop) : List α → List β → Prop
   | nil : All2 R [] []
@@ -224,29 +226,32 @@ theorem chainsC_addRr_none {s s' : State} (hw : WInv s) (hl : PtrLogOK s) (owner
     {qs : List QItC} {rs : List RItC} {r : Nat} (hr12 : r ≤ s.cursor)
     (hq : QChainC s qs 12 r) (hr : RChainC s rs r s.cursor) :
     WInv s' ∧ PtrLogOK s' ∧ Ext s s' ∧ QChainC s' qs 12 r ∧
-      ∃ it : RItC, RChainC s' (rs ++ [it]) r s'.cursor ∧ it.r = ⟨owner, ty, cls, ttl, rd⟩ := by
+      ∃ it : RItC, RChainC s' (rs ++ [it]) r s'.cursor ∧ it.r = ⟨owner, ty, cls, ttl, rd⟩ ∧ it.m = s.mode := by
   obtain ⟨_, hok⟩ := sp_addRr (track := s.hv = some []) (s0 := s) (names := []) .none owner ty cls ttl rd hwf s
     ⟨[], _, none, recSt_init hw hl, trivial⟩
   obtain ⟨p, hrec⟩ := hok () s' h
   have e : Ext s s' := by
     have := frame_addRr .none owner ty cls ttl rd s
     rw [h] at this; exact this
-  obtain ⟨it, hch, hrr, _⟩ := addRr_itemC .none owner ty cls ttl rd s s' hw hl hwf trivial h hle
+  obtain ⟨it, hch, hrr, hm⟩ := addRr_itemC .none owner ty cls ttl rd s s' hw hl hwf trivial h hle
   exact ⟨hrec.winv, hrec.log, e, qchainC_ext e hr12 hq, it,
-    rchainC_append (rchainC_ext e (Nat.le_refl _) hr) hch, hrr⟩
+    rchainC_append (rchainC_ext e (Nat.le_refl _) hr) hch, hrr, hm⟩
 
 /-- the final chains with content -/
-structure FinLayC (s sF : State) (len : Nat) (mac : Option (List UInt8)) (b : Body) : Prop where
+structure FinLayC (P : CMode → Prop) (s sF : State) (len : Nat) (mac : Option (List UInt8)) (b : Body) : Prop where
   winv : WInv sF
   len : len = sF.cursor
+  /-- the first four header octets are untouched -/
+  hdr : ∀ i, i < 4 → sF.octets[i]? = s.octets[i]?
   counts : BytesAt sF.octets 4 (u16be s.qdcount ++ u16be s.ancount ++ u16be s.nscount ++ u16be s.arcount)
   chains : ∃ qs rs, QChainC sF qs 12 s.rrStart ∧ RChainC sF rs s.rrStart sF.cursor ∧
     qs.map (·.q) = b.qs ∧
-    rs.map (·.r) = b.an ++ b.ns ++ (b.ar ++ optRecs' s.edns ++ tsigRecs s.tsig mac)
+    rs.map (·.r) = b.an ++ b.ns ++ (b.ar ++ optRecs' s.edns ++ tsigRecs s.tsig mac) ∧
+    (∀ it ∈ qs, P it.m) ∧ ∀ it ∈ rs, P it.m
 
 theorem finishWithMac_finLayC (macFn : Tsig → List UInt8 → List UInt8) (s : State) (b : Body) (hI : I s)
-    (hL : CLay s b) (len : Nat) (mac : Option (List UInt8)) (sF : State)
-    (hw : finishWithMac macFn s = (.ok (len, mac), sF)) (hle : sF.cursor ≤ 65535) : FinLayC s sF len mac b := by
+    (hL : CLay P s b) (len : Nat) (mac : Option (List UInt8)) (sF : State)
+    (hw : finishWithMac macFn s = (.ok (len, mac), sF)) (hle : sF.cursor ≤ 65535) : FinLayC P s sF len mac b := by
   unfold finishWithMac at hw
   simp only [M.bind_apply, M.gets_apply] at hw
   obtain ⟨o, hceq, hIA, hosz⟩ := finishCounts_spec s.qdcount s.ancount s.nscount s.arcount s hI
@@ -255,6 +260,7 @@ theorem finishWithMac_finLayC (macFn : Tsig → List UInt8 → List UInt8) (s : 
   simp only [] at hw
   generalize hsA : ({ s with octets := o } : State) = sA at hw hIA kpre kcnt
   have cA : sA.cursor = s.cursor := by rw [← hsA]
+  have mA : sA.mode = s.mode := by rw [← hsA]
   have gA : sA.gLabels = s.gLabels := by rw [← hsA]
   have eA : sA.edns = s.edns := by rw [← hsA]
   have tA : sA.tsig = s.tsig := by rw [← hsA]
@@ -265,7 +271,7 @@ theorem finishWithMac_finLayC (macFn : Tsig → List UInt8 → List UInt8) (s : 
   have hres := inv_reserved' hI.inv
   have hav := hI.inv.av_lim; have hls := hI.inv.lim_size
   have h11 : Gen.OPT_RECORD_SIZE = 11 := rfl
-  obtain ⟨qs, hq, hqm⟩ := hL.q
+  obtain ⟨qs, hq, hqm, hqP⟩ := hL.q
   have hq12 : 12 ≤ s.rrStart := qchainC_le hq
   cases ho : finishOpt s.edns sA with
   | mk r2 s1 =>
@@ -291,7 +297,7 @@ theorem finishWithMac_finLayC (macFn : Tsig → List UInt8 → List UInt8) (s : 
           rw [hadd] at this; exact this.cur
       have hle1 : s1.cursor ≤ 65535 := by omega
       have hle0 : s.cursor ≤ 65535 := by omega
-      obtain ⟨rs, hr, hrm⟩ := hL.r hle0
+      obtain ⟨rs, hr, hrm, hrP⟩ := hL.r hle0
       have hpreA : ∀ i, 12 ≤ i → i < s.cursor → sA.octets[i]? = s.octets[i]? := fun i hi _ => kpre i (Or.inr hi)
       have hqA : QChainC sA qs 12 s.rrStart :=
         qchainC_move (lo := 12) (fun it hlo hk hf => qfacts_frame (lo := 12) hf hlo (by omega) hI.winv.g12 hpreA
@@ -304,10 +310,11 @@ theorem finishWithMac_finLayC (macFn : Tsig → List UInt8 → List UInt8) (s : 
       have stage1 : ∃ o1 : List RItC, WInv s1 ∧ PtrLogOK s1 ∧ QChainC s1 qs 12 s.rrStart ∧
           RChainC s1 (rs ++ o1) s.rrStart s1.cursor ∧ o1.map (·.r) = optRecs' s.edns ∧
           (∀ i, i < 12 → s1.octets[i]? = sA.octets[i]?) ∧ s1.tsig = s.tsig ∧
-          s1.available + tsigReserved s.tsig ≤ s1.octets.size := by
+          s1.available + tsigReserved s.tsig ≤ s1.octets.size ∧ (∀ it ∈ o1, it.m = s.mode) ∧ s1.mode = s.mode := by
         rcases hO with ⟨he, e⟩ | ⟨e, he, hadd⟩
         · subst e
-          refine ⟨[], hIA.winv, hIA.log, hqA, by simpa using hrA, by rw [he]; rfl, fun _ _ => rfl, tA, ?_⟩
+          refine ⟨[], hIA.winv, hIA.log, hqA, by simpa using hrA, by rw [he]; rfl, fun _ _ => rfl, tA, ?_,
+            (fun _ hx => by cases hx), mA⟩
           rw [avA, szA]; rw [he] at hres; simp at hres; omega
         · rw [he] at hres
           simp only [Option.isSome_some, if_true, h11] at hres
@@ -318,22 +325,31 @@ theorem finishWithMac_finLayC (macFn : Tsig → List UInt8 → List UInt8) (s : 
             qchainC_fields (s := sA) (s' := { sA with available := sA.available + Gen.OPT_RECORD_SIZE }) rfl rfl rfl hqA
           have hrA' : RChainC { sA with available := sA.available + Gen.OPT_RECORD_SIZE } rs s.rrStart sA.cursor :=
             rchainC_fields (s := sA) (s' := { sA with available := sA.available + Gen.OPT_RECORD_SIZE }) rfl rfl rfl hrA
-          obtain ⟨w1, l1, e1, hq1, it, hr1, hit1⟩ := chainsC_addRr_none
+          obtain ⟨w1, l1, e1, hq1, it, hr1, hit1, hitm⟩ := chainsC_addRr_none
             (s := { sA with available := sA.available + Gen.OPT_RECORD_SIZE }) wA' hIA.log WName.root T_OPT
             e.payload ((e.upper * 16777216) % 4294967296) [] (by decide) hadd hle1
             (r := s.rrStart) (by show s.rrStart ≤ sA.cursor; rw [cA]; exact hrr) hqA' hrA'
           refine ⟨[it], w1, l1, hq1, hr1, ?_, fun i hi => e1.pre i (by show i < sA.cursor; rw [cA]; omega),
-            by rw [e1.tsig]; exact tA, ?_⟩
+            by rw [e1.tsig]; exact tA, ?_, fun x hx => by
+              simp only [List.mem_singleton] at hx; subst hx; rw [hitm]; exact mA,
+            by rw [e1.mode]; exact mA⟩
           · rw [he]; simp only [List.map_cons, List.map_nil, hit1]; rfl
           · rw [e1.available, e1.size]
             show sA.available + Gen.OPT_RECORD_SIZE + _ ≤ sA.octets.size
             rw [avA, szA, h11]; omega
-      obtain ⟨o1, w1, l1, hq1, hr1, hom, hpre1, ht1, hroom1⟩ := stage1
+      obtain ⟨o1, w1, l1, hq1, hr1, hom, hpre1, ht1, hroom1, hom1, hm1⟩ := stage1
+      have hP1 : ∀ it ∈ rs ++ o1, P it.m := by
+        intro it hx
+        rcases List.mem_append.mp hx with hx | hx
+        · exact hrP it hx
+        · rw [hom1 it hx]; exact hL.pm
+      have hhdr1 : ∀ i, i < 4 → s1.octets[i]? = s.octets[i]? := fun i hi => by
+        rw [hpre1 i (by omega)]; exact kpre i (Or.inl hi)
       have c12 : 12 ≤ s1.cursor := by rw [cA] at hmonoA; omega
       have hl8 : (u16be s.qdcount ++ u16be s.ancount ++ u16be s.nscount ++ u16be s.arcount).length = 8 := rfl
       rcases hT with ⟨hts, e, hlen⟩ | ⟨ts, rdata, hts, hlen, hadd, hrd⟩
       · subst e
-        refine ⟨w1, hlen, ?_, qs, rs ++ o1, hq1, hr1, hqm, ?_⟩
+        refine ⟨w1, hlen, hhdr1, ?_, qs, rs ++ o1, hq1, hr1, hqm, ?_, hqP, hP1⟩
         · intro i hi
           rw [hl8] at hi
           rw [hpre1 _ (by omega)]
@@ -351,11 +367,16 @@ theorem finishWithMac_finLayC (macFn : Tsig → List UInt8 → List UInt8) (s : 
         have hr1' : RChainC { s1 with tsig := none, available := s1.available + ts.reservedLen } (rs ++ o1)
             s.rrStart s1.cursor :=
           rchainC_fields (s := s1) (s' := { s1 with tsig := none, available := s1.available + ts.reservedLen }) rfl rfl rfl hr1
-        obtain ⟨w2, l2, e2, hq2, it, hr2, hit2⟩ := chainsC_addRr_none
+        obtain ⟨w2, l2, e2, hq2, it, hr2, hit2, hitm2⟩ := chainsC_addRr_none
           (s := { s1 with tsig := none, available := s1.available + ts.reservedLen }) w1' l1 ts.rr.keyName T_TSIG
           QC_ANY (ttlFrom 0) rdata hkey hadd hle
           (r := s.rrStart) (by show s.rrStart ≤ s1.cursor; rw [cA] at hmonoA; omega) hq1' hr1'
-        refine ⟨w2, hlen, ?_, qs, rs ++ o1 ++ [it], hq2, hr2, hqm, ?_⟩
+        refine ⟨w2, hlen, fun i hi => by
+            rw [e2.pre _ (by show i < s1.cursor; omega)]; exact hhdr1 i hi, ?_, qs, rs ++ o1 ++ [it], hq2, hr2, hqm, ?_,
+          hqP, fun x hx => by
+            rcases List.mem_append.mp hx with hx | hx
+            · exact hP1 x hx
+            · simp only [List.mem_singleton] at hx; subst hx; rw [hitm2]; show P s1.mode; rw [hm1]; exact hL.pm⟩
         · intro i hi
           rw [hl8] at hi
           rw [e2.pre _ (by show 4 + i < s1.cursor; omega), hpre1 _ (by omega)]
@@ -377,12 +398,13 @@ theorem map_take_eq {α β : Type} (f : α → β) (l : List α) (a b : List β)
     written in `CasePreserving` or `Disabled` mode), TYPE, CLASS, TTL as given (as 16/16/32-bit
     values); the additional section ends with the OPT and TSIG records `finish` appends. -/
 theorem finish_decodes_content (macFn : Tsig → List UInt8 → List UInt8) (s : State) (b : Body) (hI : I s)
-    (hL : CLay s b) (m : Bytes) (mac : Option (List UInt8)) (hf : finish s macFn = .ok (m, mac))
+    (hL : CLay P s b) (m : Bytes) (mac : Option (List UInt8)) (hf : finish s macFn = .ok (m, mac))
     (hsz : m.size ≤ 65535) :
     ∃ (d : DMsg) (qs : List QItC) (ian ins iar : List RItC), specDecodeMsg m = some d ∧
       qs.map (·.q) = b.qs ∧ ian.map (·.r) = b.an ∧ ins.map (·.r) = b.ns ∧
       iar.map (·.r) = b.ar ++ optRecs' s.edns ++ tsigRecs s.tsig mac ∧
-      All2 QMatch qs d.questions ∧ All2 RMatch ian d.an ∧ All2 RMatch ins d.ns ∧ All2 RMatch iar d.ar := by
+      All2 QMatch qs d.questions ∧ All2 RMatch ian d.an ∧ All2 RMatch ins d.ns ∧ All2 RMatch iar d.ar ∧
+      (∀ it ∈ qs, P it.m) ∧ ∀ it ∈ ian ++ ins ++ iar, P it.m := by
   unfold finish at hf
   cases hw : finishWithMac macFn s with
   | mk r sF =>
@@ -400,7 +422,7 @@ theorem finish_decodes_content (macFn : Tsig → List UInt8 → List UInt8) (s :
       have hcF : sF.cursor ≤ sF.octets.size := by omega
       have hmsz : m.size = sF.cursor := by rw [← hm, hlc]; exact extract_size _ _ hcF
       have hle : sF.cursor ≤ 65535 := by omega
-      obtain ⟨wF, _, hcnt, qs, rs, hq, hr, hqm, hrm⟩ := finishWithMac_finLayC macFn s b hI hL len mc sF hw hle
+      obtain ⟨wF, _, hhdr, hcnt, qs, rs, hq, hr, hqm, hrm, hqP, hrP⟩ := finishWithMac_finLayC macFn s b hI hL len mc sF hw hle
       rw [hlc] at hm
       subst hm
       have hsz' := extract_size sF.octets sF.cursor hcF
@@ -457,7 +479,12 @@ theorem finish_decodes_content (macFn : Tsig → List UInt8 → List UInt8) (s :
       rw [htk] at hmr
       refine ⟨⟨be16 (sF.octets.extract 0 sF.cursor) 0, be16 (sF.octets.extract 0 sF.cursor) 2, lq, la, ln, lr⟩,
         qs, rs.take s.ancount, (rs.drop s.ancount).take s.nscount, (rs.drop s.ancount).drop s.nscount, ?_, hqm,
-        ?_, ?_, ?_, hmq, hma, hmn, hmr⟩
+        ?_, ?_, ?_, hmq, hma, hmn, hmr, hqP, fun it hx => by
+          rcases List.mem_append.mp hx with hx | hx
+          · rcases List.mem_append.mp hx with hx | hx
+            · exact hrP it (List.mem_of_mem_take hx)
+            · exact hrP it (List.mem_of_mem_drop (List.mem_of_mem_take hx))
+          · exact hrP it (List.mem_of_mem_drop (List.mem_of_mem_drop hx))⟩
       · unfold specDecodeMsg
         rw [if_neg (by rw [hsz']; omega)]
         rw [specField16_some (by rw [hsz']; omega), specField16_some (by rw [hsz']; omega),
